@@ -90,11 +90,16 @@ func genC13(r *Rng, e *Emitter, n int) {
 		}
 		shape := r.Intn(4)
 		flat := make([]float64, 0, np*stride)
+		// a random line for the collinear shape: horizontal, vertical, diagonal or general direction
+		lx0, ly0, ldx, ldy := r.Intn(5), r.Intn(5), r.Intn(4), r.Intn(4)
+		if ldx == 0 && ldy == 0 {
+			ldx = 1
+		}
 		for k := 0; k < np; k++ {
 			x, y := r.Intn(g), r.Intn(g)
 			switch shape {
 			case 0: // collinear
-				y = x
+				x, y = lx0+x*ldx, ly0+x*ldy
 			case 1: // on a circle-ish ring (many hull vertices), plus interior duplicates
 				if k%3 != 0 {
 					x, y = g/2+int(float64(g/2)*cosTab[k%16]), g/2+int(float64(g/2)*sinTab[k%16])
